@@ -17,7 +17,7 @@ def subsets():
 def run(tier):
     ck = C.Check("C12", tier)
     failed = ck.proofs()
-    ng = 3 if tier == "quick" else 40
+    ng = 3 if tier == "quick" else 18
     b = batch.Batch("c12")
     variants = 0
     nontrivial = set()
@@ -35,6 +35,11 @@ def run(tier):
             if k % 2 == 0:
                 # an error symbol that is not the first symbol of its alternative (flags must not change which states can recover)
                 syn.append((syn[0][0], [terms[0], (1, "error"), terms[1]], 0, 0))
+            if k % 3 == 2:
+                # a nullable non-terminal right after another non-terminal: every look-ahead computed through FIRST matters
+                syn.append((syn[0][0], [(0, syn[-1][0]), (0, "O8"), terms[0]], 0, 0))
+                syn.append(("O8", [(1, "empty")], 0, 0))
+                syn.append(("O8", [terms[1]], 0, 0))
             g = {"lex": lex, "syn": syn}
             ids = []
             for fl in subsets():
